@@ -408,6 +408,13 @@ def oracle(case, stats=None):
                 continue
             if info["err"] == "ValueError" and range_error_expected(case, mode, site):
                 continue
+            if info["err"] == "ValueError" and mode == "tabulated" and case["tab_K"] == "omitted" \
+                    and case["kw"].get("ok", 0.0) != 0 and site in ("cosmo_instance", "likelihood"):
+                # a table of a curved cosmology handed over without its curvature K cannot be used (D_ds needs K):
+                # refusing it is allowed; any VALUE returned instead is held against the Friedmann distances below
+                if stats is not None:
+                    stats["curved_table_without_K_refused"] = stats.get("curved_table_without_K_refused", 0) + 1
+                continue
             fails.append((err_signature(lab, site, info),
                           "%s raised in mode %s: %s" % (site, lab, info["msg"])))
         if mode in EXACT_MODES or not ordered:
@@ -551,7 +558,8 @@ def gen_case(rng, i):
         num_interp = max(rng.choice([100, 150, 200, 300]), int(math.ceil(zmax / 0.05)))
         case = {"model": model, "kw": kw, "zd": zd, "zs": zs, "zs2": zs2, "za": za, "ltype": lt,
                 "num_interp": num_interp, "ntab": max(rng.choice([200, 400]), int(math.ceil(zmax / 0.02))),
-                "tab_K": "given" if (model == "oLCDM" or rng.random() < 0.5) else "omitted",
+                # (a curved table without its curvature: the library may refuse it — ValueError — but must not guess)
+                "tab_K": "given" if ((model == "oLCDM" and rng.random() < 0.8) or rng.random() < 0.5) else "omitted",
                 "extra_key": rng.random() < 0.2, "stream": "valid"}
         if rng.random() < 0.15 and case["tab_K"] == "given":
             case["tab_z0"] = 0.004  # table not starting at 0: CosmoInterp prepends (0, 0)
@@ -570,6 +578,9 @@ def corner_cases():
         out.append(dict(base, model="w0waCDM", kw=dict(planck, w0=-0.9, wa=0.3), ltype=lt, tab_K="omitted"))
         out.append(dict(base, model="oLCDM", kw=dict(planck, ok=0.1), ltype=lt))
         out.append(dict(base, model="oLCDM", kw=dict(planck, ok=-0.1), ltype=lt))
+        # a curved table handed over WITHOUT its curvature (refusal allowed, a guessed curvature is not)
+        out.append(dict(base, model="oLCDM", kw=dict(planck, ok=-0.2), ltype=lt, tab_K="omitted", modes=["tabulated"]))
+        out.append(dict(base, model="oLCDM", kw=dict(planck, ok=0.15), ltype=lt, tab_K="omitted", modes=["tabulated"]))
     out.append(dict(base, model="oLCDM", kw=dict(planck, ok=0.0), ltype="Mag"))
     out.append(dict(base, model="oLCDM", kw=dict(planck, ok=5e-7), ltype="Mag"))      # inside CosmoInterp's flat band
     out.append(dict(base, model="oLCDM", kw=dict(planck, ok=-5e-7), ltype="DdtGaussian"))
